@@ -53,6 +53,8 @@ pub enum Dir {
     Raw(String),
     Source(String),
     Take(Take),
+    /// method-call rewrite: `recv.NAME(args)` -> `FN(recv, args)` / `FN(&mut recv, args)` (declared per unit, R5)
+    RewriteMethod(String, String, bool),
 }
 
 pub fn parse(text: &str, cdir: &str) -> Result<Vec<Dir>, String> {
@@ -93,6 +95,11 @@ pub fn parse(text: &str, cdir: &str) -> Result<Vec<Dir>, String> {
             }
             "include" => out.push(Dir::Include(arg.to_string())),
             "source" => out.push(Dir::Source(arg.to_string())),
+            "rewrite-method" => {
+                let parts: Vec<&str> = arg.split_whitespace().collect();
+                if parts.len() < 2 { return Err(format!("spec line {}: @@rewrite-method NAME FN [mut]", i)); }
+                out.push(Dir::RewriteMethod(parts[0].to_string(), parts[1].to_string(), parts.get(2) == Some(&"mut")));
+            }
             "raw" => {
                 let mut b = String::new();
                 while i < lines.len() && lines[i].trim_end() != "@@end" {
